@@ -146,6 +146,32 @@ pub fn child(args: &[String]) -> i32 {
     0
 }
 
+/// child: first USE of the allocation limit (a decode), then a late setter — the documented
+/// default must have been fixed by the first use
+pub fn child_use_then_set(args: &[String]) -> i32 {
+    let which = args[0].as_str();
+    // first use through a decoder that only needs the length guard
+    let mut input = vec![];
+    crate::c05::long(3, &mut input);
+    input.extend_from_slice(b"abc");
+    let schema = match which {
+        "string" => Schema::String,
+        "fixed" => Schema::parse_str(r#"{"type":"fixed","name":"F","size":3}"#).unwrap(),
+        "array" => Schema::parse_str(r#"{"type":"array","items":"null"}"#).unwrap(),
+        _ => Schema::Bytes,
+    };
+    let first: &[u8] = match which { "fixed" => b"abc", "array" => &[4, 0], _ => &input };
+    let r0 = apache_avro::from_avro_datum(&schema, &mut &first[..], None).is_ok();
+    let reported = apache_avro::util::max_allocation_bytes(1024);
+    // a 2000-byte value: within the default, beyond the late proposal
+    let mut big = vec![];
+    crate::c05::long(2000, &mut big);
+    big.extend(std::iter::repeat(0x61u8).take(2000));
+    let r1 = apache_avro::from_avro_datum(&Schema::Bytes, &mut &big[..], None).is_ok();
+    println!("first_use_ok {r0} reported {reported} later_2000_ok {r1}");
+    0
+}
+
 /// child for the limit boundary: set the limit, then decode declared lengths around it
 pub fn child_limit(args: &[String]) -> i32 {
     let lim: usize = args[0].parse().unwrap();
@@ -289,6 +315,19 @@ pub fn run(args: &[String]) -> i32 {
                 }
             }
         }
+    }
+    // first use, then a late setter: the default was fixed by the first use
+    for which in ["bytes", "string", "fixed", "array"] {
+        let o = Command::new(&exe).args(["c19seq", which]).output().unwrap();
+        let text = String::from_utf8_lossy(&o.stdout).to_string();
+        out.count("use_then_set");
+        let want = format!("first_use_ok true reported {} later_2000_ok true", apache_avro::util::DEFAULT_MAX_ALLOCATION_BYTES);
+        if text.trim() != want {
+            out.oracle_fail("late-setter-changes-limit", &format!("observed `{}`, expected `{want}`", text.trim()),
+                &format!("fresh process: decode a {which} datum (first use of the limit), then max_allocation_bytes(1024), then decode 2000 bytes"));
+        }
+        out.pair(&format!("once ((g {}) (g 1024))", apache_avro::util::DEFAULT_MAX_ALLOCATION_BYTES),
+            &format!("v{} v{}", apache_avro::util::DEFAULT_MAX_ALLOCATION_BYTES, text.split_whitespace().nth(3).unwrap_or("?")));
     }
     // the limit in force is the one every decoder applies
     for lim in [0usize, 1, 4096, 65536, usize::MAX] {
